@@ -1040,6 +1040,8 @@ def query_family(ctx, H, L, tables):
                 if sp in occ or sp in qocc:
                     continue
                 role = "typedef" if x in typedefs else ("array" if any(q[e:e + 1] == "[" for (a, e) in qocc[x]) else "other")
+                if x in occ and any(m.bkind[b] == "name" for (b, _, _) in occ[x]) and sp in kw_prop:
+                    continue   # XMLReader::readText reserves every OLD/PROPERTY keyword for <name> elements (explicit test)
                 mt, q2 = apply({x: sp})
                 items.append((qi, "query-rename-special", "%s-named-%s" % (role, sp), mt, q2, {x: sp}))
     # token-stream filter for trivia (model says unchanged) -- alias pairs are the property's
@@ -1071,6 +1073,9 @@ def query_family(ctx, H, L, tables):
                 continue
         ctx.finding(key, "%s rewrite changes the result of query %r: %s" % (family, QUERIES[qi], diff), rp)
     for key, lst in sorted(shapes.items()):
+        if os.environ.get("C09_DEBUG"):
+            for (q0, q2, diff, rp) in lst:
+                print("SHAPE", key, repr(q0), "->", repr(q2), diff[:200])
         q0, q2, diff, rp = lst[0]
         ctx.finding(key, "renaming an identifier of a query to a soft keyword / one-letter token changes the result (%d pairs), e.g. %r -> %r: %s"
                     % (len(lst), q0, q2, diff), rp)
